@@ -18,6 +18,7 @@ def strategy():
         max_steps=28,
         cond_rate=6,
         fancy_names=False,
+        sparse_rate=3,
     )
 
 
